@@ -25,7 +25,7 @@ def make(cfg, sched=None, keep_log=False):
         attrs = sane_attrs()
     else:
         attrs = [attrs[0], attrs[1], attrs[2], attrs[3], attrs[4], attrs[5], list(attrs[6])]
-    s.fd, s.tty = s.kernel.open_tty(attrs, cfg.get("tty_flags"))
+    s.fd, s.tty = s.kernel.open_tty(attrs, cfg.get("tty_flags"), 0 if cfg.get("tty_fd0") else None)
     onlcr = bool(attrs[1] & _termios.OPOST) and bool(attrs[1] & _termios.ONLCR)
     if "onlcr" in cfg:
         onlcr = cfg["onlcr"]
